@@ -2,7 +2,7 @@
 import c01
 
 MANIFEST = {
-    "text": "Actor level: C02_kernel_conservation — for every role table, run and message serial of the kernel model, sends = handled + "
+    "text": "Kernel/Reuse.v: the order of handled serials also holds ACROSS successive objects of one address (C02_handled_in_send_order_across_address_reuse: u1 < u2 with the same address => every serial handled by u1 is strictly below every serial handled by u2), an unregistered object receives nothing. Actor level: C02_kernel_conservation — for every role table, run and message serial of the kernel model, sends = handled + "
             "dead letters + still pending (nothing invented, nothing lost, across failure, restart, suspension, termination, address reuse), "
             "C02_kernel_exactly_once_per_receiver (the same flow equation per serial AND receiver address: a message sent once to t is at any time "
             "exactly one of pending / handled once / dead-lettered once; broadcast copies accounted per child), "
